@@ -29,7 +29,8 @@ Names(set) == {x[1] : x \in set}
 RECURSIVE PutAll(_, _, _)
 PutAll(set, ch, i) == IF i > Len(ch) THEN set ELSE PutAll(Put(set, ch[i].name, ch[i].val), ch, i + 1)
 RECURSIVE StampAll(_, _, _, _)
-StampAll(set, ch, i, ms) == IF i > Len(ch) THEN set ELSE StampAll(Put(set, ch[i].name, ms), ch, i + 1, ms)
+StampAll(set, ch, i, ms) ==      \* a value that (dis)appears because simulation is switched keeps the time it was set at
+    IF i > Len(ch) THEN set ELSE StampAll(IF ch[i].simflip THEN set ELSE Put(set, ch[i].name, ms), ch, i + 1, ms)
 
 ReportClauses(e) ==
     LET names == {e.tags[i].name : i \in DOMAIN e.tags}
